@@ -37,7 +37,7 @@ func runC07(c *eng.Ctx, thorough bool) {
 		return
 	}
 	if f := c.Fn("vault.(*TokenStore).handleCreateCommon"); f != nil {
-		create := instrsOf(eng.Calls(f, `vault\.\(\*TokenStore\)\.create$`))
+		create := gcIns(f, `vault\.\(\*TokenStore\)\.create$`)
 		if !c.Floor(f, "ts.create", len(create), 1) {
 			return
 		}
@@ -131,12 +131,10 @@ func runC07(c *eng.Ctx, thorough bool) {
 			}
 		}
 		nSudo := 0
-		for _, g := range append([]*ssa.Function{f}, eng.Closures(f)...) {
-			for _, sp := range eng.Calls(g, `SudoPrivilege$`) {
-				nSudo++
-				a := sp.Common().Args
-				c.Prov(f, "token whose sudo capability is tested", sp, a[len(a)-1], `^field:\^?req\.ClientToken$`)
-			}
+		for _, e := range gcEffs(f, `SudoPrivilege$`) {
+			nSudo++
+			a := gcArgs(e)
+			gcProv(c, f, "token whose sudo capability is tested", e.Call.In, a[len(a)-1], e.Fr, `^field:\^?req\.ClientToken$`)
 		}
 		c.Floor(f, "SudoPrivilege calls (in the function or its closures)", nSudo, 1)
 		// ---- C07.6 TTLs
@@ -155,7 +153,7 @@ func runC07(c *eng.Ctx, thorough bool) {
 		}
 		// CalculateTTL is skipped only for a TTL-less root token
 		c.Clause("R2", "C07.6")
-		calc := instrsOf(eng.Calls(f, `framework\.CalculateTTL$`))
+		calc := gcIns(f, `framework\.CalculateTTL$`)
 		if c.Floor(f, "CalculateTTL call", len(calc), 1) {
 			blocked := eng.CondEdgesDeep(f, `^slices\.Contains\[.*\]\(&te\.Policies, "root"\)$`, true)
 			// a negative TTL (0 < TTL false and TTL == 0 false) is excluded by parseAndMergeTTLPeriod's "must be positive" refusals (checked in C07.3)
@@ -352,7 +350,7 @@ func runC07(c *eng.Ctx, thorough bool) {
 	// ---- C07.7 logins
 	if f := c.Fn("vault.(*Core).LoginCreateToken"); f != nil {
 		c.Clause("R2", "C07.7")
-		reg := instrsOf(eng.Calls(f, `vault\.\(\*Core\)\.RegisterAuth$`))
+		reg := gcIns(f, `vault\.\(\*Core\)\.RegisterAuth$`)
 		if c.Floor(f, "RegisterAuth call", len(reg), 1) {
 			loopDone := eng.CondEdges(f, `rangeindex.*len\(policyutil\.SanitizePolicies\(\)\)$`, false)
 			c.Cut(f, "Core.RegisterAuth", reg, eng.Guard{Desc: "exit edge of the loop over token+identity policies", Edges: loopDone}, nil)
@@ -407,9 +405,10 @@ func runC07(c *eng.Ctx, thorough bool) {
 	}
 	if f := c.Fn("vault.(*Core).RegisterAuth"); f != nil {
 		c.Clause("R2", "C07.7")
-		create := instrsOf(eng.Calls(f, `vault\.\(\*TokenStore\)\.create$`))
+		create := gcIns(f, `vault\.\(\*TokenStore\)\.create$`)
 		if c.Floor(f, "ts.create", len(create), 1) {
-			c.Cut(f, "ts.create (login)", create, eng.Or(eng.G(f, `^&te\.TTL == 0$`, false), eng.G(f, `^&te\.Policies\[0\] == "root"$`, true)), nil)
+			// the conditions may be kept in a boolean flag first (isRootOnly := len(p) == 1 && p[0] == "root")
+			c.Cut(f, "ts.create (login)", create, eng.Or(c18G(f, `^&te\.TTL == 0$`, false), c18G(f, `^&te\.Policies\[0\] == "root"$`, true)), nil)
 		}
 	}
 
@@ -444,7 +443,7 @@ func runC07(c *eng.Ctx, thorough bool) {
 	}
 	if f := c.Fn("vault.(*TokenStore).handleCreateAgainstRole"); f != nil {
 		c.Clause("R2", "C07.8")
-		cc := instrsOf(eng.Calls(f, `handleCreateCommon$`))
+		cc := gcIns(f, `handleCreateCommon$`)
 		c.Cut(f, "handleCreateCommon(role)", cc, eng.G(f, `tokenStoreRole\(\)#0 == nil$`, false), nil)
 	}
 	runC07Gaps2(c)
